@@ -429,39 +429,46 @@ theorem prefixIfDigit_cons (p c : Char) (cs : List Char) :
 /-- everything after the `is_empty` test in `to_rust_field_name` -/
 theorem field_tail (F : List (List Char)) (hcov : ∀ k ∈ rustKeywords, k ∈ F)
     (hshape : ∀ k ∈ F, identShape k = true) (id : List Char) (h : SnakeId id) :
-    let r := if id == "self".toList then "self_".toList
+    let r := if id == "self".toList || id == "crate".toList || id == "super".toList then id ++ ['_']
       else if F.contains id then 'r' :: '#' :: id else prefixIfDigit '_' id
-    legal .field r = true ∨ r = "r#crate".toList ∨ r = "r#super".toList := by
+    legal .field r = true := by
   intro r
-  by_cases h1 : id = "self".toList
-  · left
-    have : r = "self_".toList := by simp [r, h1]
-    rw [this]; decide
-  · by_cases h2 : id ∈ F
+  by_cases h1 : id = "self".toList ∨ id = "crate".toList ∨ id = "super".toList
+  · have hc : (id == "self".toList || id == "crate".toList || id == "super".toList) = true := by
+      rcases h1 with h1 | h1 | h1 <;> simp [h1]
+    have hr : r = id ++ ['_'] := by simp only [r, hc, if_true]
+    rw [hr]
+    rcases h1 with h1 | h1 | h1 <;> rw [h1] <;> decide
+  · have hs : id ≠ "self".toList := fun e => h1 (Or.inl e)
+    have hcr : id ≠ "crate".toList := fun e => h1 (Or.inr (Or.inl e))
+    have hsu : id ≠ "super".toList := fun e => h1 (Or.inr (Or.inr e))
+    have hc : (id == "self".toList || id == "crate".toList || id == "super".toList) = false := by
+      simp only [Bool.or_eq_false_iff, beq_eq_false_iff_ne]
+      exact ⟨⟨hs, hcr⟩, hsu⟩
+    by_cases h2 : id ∈ F
     · have hr : r = 'r' :: '#' :: id := by
-        simp only [r, beq_iff_eq, h1, if_false, List.contains_iff_mem.2 h2, if_true]
+        simp only [r, hc, Bool.false_eq_true, if_false, List.contains_iff_mem.2 h2, if_true]
       rw [hr]
-      by_cases h3 : id ∈ cannotBeRaw
-      · rcases mem_cannotBeRaw h3 with h3 | h3 | h3 | h3 | h3
-        · right; left; rw [h3]; rfl
-        · exact absurd h3 h1
-        · right; right; rw [h3]; rfl
+      have h3 : id ∉ cannotBeRaw := by
+        intro h3
+        rcases mem_cannotBeRaw h3 with h3 | h3 | h3 | h3 | h3
+        · exact hcr h3
+        · exact hs h3
+        · exact hsu h3
         · exact absurd (h3 ▸ h) not_snakeId_Self
         · exact absurd (h3 ▸ h) not_snakeId_und
-      · left
-        rw [legal_raw, hshape id h2]
-        have : cannotBeRaw.contains id = false := by
-          rw [Bool.eq_false_iff, Ne, List.contains_iff_mem]; exact h3
-        rw [this]; rfl
-    · left
-      have hc : F.contains id = false := by
+      rw [legal_raw, hshape id h2]
+      have : cannotBeRaw.contains id = false := by
+        rw [Bool.eq_false_iff, Ne, List.contains_iff_mem]; exact h3
+      rw [this]; rfl
+    · have hcF : F.contains id = false := by
         rw [Bool.eq_false_iff, Ne, List.contains_iff_mem]; exact h2
       have hr : r = prefixIfDigit '_' id := by
-        simp only [r, beq_iff_eq, h1, if_false, hc, Bool.false_eq_true]
+        simp only [r, hc, Bool.false_eq_true, if_false, hcF]
       rw [hr]
       have hkw : id ∉ rustKeywords := fun hk => h2 (hcov id hk)
       have hok := snakeId_okc h
-      obtain ⟨c, cs, rfl, hc, hcs⟩ := h
+      obtain ⟨c, cs, rfl, hc', hcs⟩ := h
       rw [prefixIfDigit_cons]
       split
       · apply legal_intro
@@ -476,9 +483,9 @@ theorem field_tail (F : List (List Char)) (hcov : ∀ k ∈ rustKeywords, k ∈ 
         · intro hp; cases hp
       · rename_i hd
         have hl : c.isLower = true := by
-          rcases hc with hc | hc
-          · exact hc
-          · exact absurd hc hd
+          rcases hc' with hc' | hc'
+          · exact hc'
+          · exact absurd hc' hd
         apply legal_intro
         · exact not_raw_of_okc hok
         · exact identShape_cons (Or.inl (alpha_of_lower hl)) fun x hx => okc_of_lduc (hcs x hx)
@@ -494,10 +501,9 @@ theorem stripMinus_eq (s : List Char) : stripMinus s = ((stripMinus s).1, (strip
 theorem field_legal_aux (F : List (List Char)) (hcov : ∀ k ∈ rustKeywords, k ∈ F)
     (hshape : ∀ k ∈ F, identShape k = true) (tr : Tr) (s : List Char) :
     legal .field (toRustFieldName F tr s) = true ∨ toRustFieldName F tr s = ['_'] ∨
-    toRustFieldName F tr s = "r#crate".toList ∨ toRustFieldName F tr s = "r#super".toList ∨
     rawPassthrough s = true := by
   by_cases hraw : rawPassthrough s = true
-  · exact Or.inr (Or.inr (Or.inr (Or.inr hraw)))
+  · exact Or.inr (Or.inr hraw)
   · unfold toRustFieldName
     rw [if_neg hraw]
     cases hsm : stripMinus s with
@@ -516,10 +522,7 @@ theorem field_legal_aux (F : List (List Char)) (hcov : ∀ k ∈ rustKeywords, k
           split
           · exact snakeId_negative hsn
           · exact hsn
-        rcases field_tail F hcov hshape _ hid with h | h | h
-        · exact Or.inl h
-        · exact Or.inr (Or.inr (Or.inl h))
-        · exact Or.inr (Or.inr (Or.inr (Or.inl h)))
+        exact Or.inl (field_tail F hcov hshape _ hid)
 
 /-! ### constant names -/
 
